@@ -70,6 +70,9 @@ deriving Repr, DecidableEq, Inhabited
 inductive Conn where
   | ok | exp | nocred | err (code : Nat) | disc (code : Nat) | gen | expired
   | none | nonenocred
+  /-- OnConnecting succeeds but a connect-time server-side subscription fails with an error reply
+  (its ExpireAt lies in the past): connectCmd fails *after* `authenticated = true` / `addClient` -/
+  | subexp
 deriving Repr, DecidableEq, Inhabited
 
 structure Cfg where
@@ -314,6 +317,8 @@ def handleConnect (cfg : Cfg) (st : Core) (_c : Cmd) : Eff :=
   | .disc code => fail (disconnect st code)
   | .nocred | .nonenocred => fail (disconnect st bad)
   | .expired => fail { (errReply { st with unusable := true } 110) with proceed := false }
+  -- the failed connect never counts as connected: `status` stays connecting, the client is unusable
+  | .subexp => fail { (errReply { st with unusable := true, authenticated := true } 110) with proceed := false }
   | _ =>
     { st := { st with authenticated := true, status := .connected, csr := cfg.csr && hasHandler },
       hs := hs ++ ["connect"],
